@@ -16,7 +16,8 @@ from tools.lib.streams import Streams, KINDS, draw_kind
 CLAIMED = True
 CONFIG = {
     'assumptions': [
-        'stream = io.BytesIO over the synthesized image (seek/read semantics of BytesIO)',
+        'stream = a seekable binary stream presenting exactly the bytes of the synthesized image (the model has the '
+        'seek/read semantics of io.BytesIO; the correspondence draws BytesIO, buffered files, mmap, gzip, decoy-fd streams)',
         'zlib is an oracle: theorems quantify over any inflate/zvalid satisfying inflate z 0 = (p, eof) and the '
         'max_length prefix law; the correspondence feeds CPython zlib streams (levels 0-9) and their payloads',
         'names/strings compared as UTF-8 text (errors=replace applied to both sides)',
@@ -73,6 +74,11 @@ RULE = ('cases: (sec_plain/sec_nobits/sec_comp) sizes {0,1,63,64,65,127,128,129,
         'e_shoff + n*e_shentsize). (addr_big) one table per run with 65540 program headers (e_phnum = PN_XNUM, count '
         'in section 0 sh_info; given as runs, spec answers computed from the runs, model not run) with PT_LOADs at '
         'indices 65534/65535/65536 and last, looked up by address_offsets generators and iter_segments(PT_LOAD). '
+        'The stream kind (tools/lib/streams.py: bytesio, file, file_warm, file_end, file_small, mmap, gzip, decoy_fd) is '
+        'drawn per case and is the last element of the abstract: every ELFFile of the case sits on that kind. (sec_kind) '
+        'contents of every specialised section class (symbol tables, SHNDX, syminfo, verneed/verdef/versym, REL, RELA, '
+        'RELR, DYNAMIC, NOTE, HASH, GNU_HASH, STRTAB, .stab, ARM/RISC-V attributes) with sizes on and off the entry grid. '
+        '(sis) also processor-specific p_type values decoded to names (EM_ARM, EM_AARCH64; thorough: MIPS, RISC-V). '
         'distinct = hash(kind, abstract); '
         'non-trivial = size>0 data, table with a string >= 63 bytes, any addr/sis pair')
 
@@ -896,12 +902,10 @@ def gen(ctx):
 # ------------------------------------------------------------------------------------------ evaluation
 def readelf_mapping(img, nseg):
     """section-to-segment mapping printed by /usr/bin/readelf -lW: {segment index: set of section indices}"""
-    d = VERIF / '.readelf-tmp'
-    d.mkdir(exist_ok=True)
-    fd, path = tempfile.mkstemp(prefix='c02-', suffix='.elf', dir=str(d))
+    # the file lives in the private directory of this process's Streams (removed in evaluate's finally);
+    # nothing with a fixed name: two checks (and the framework's python -O pass) run side by side
+    path = _CUR['streams'].path_of(img)        # evaluate() owns the Streams
     try:
-        os.write(fd, img)
-        os.close(fd)
         r = subprocess.run(['/usr/bin/readelf', '-lW', path], stdout=subprocess.PIPE, stderr=subprocess.PIPE,
                            env={'LC_ALL': 'C', 'PATH': '/usr/bin:/bin'})
     finally:
@@ -1526,7 +1530,3 @@ def _evaluate(ctx, cases):
             ctx.bump('sis_oracle', 'agree' if oracle == lists else 'DISAGREE')
             # "impl" here is the installed readelf, "spec" the Coq macro incl. readelf's TBSS filter
             ctx.record(kind, w.full, impl=oracle, spec=lists, model=None, in_domain=True, nontrivial=True, key=K_ORACLE)
-    try:
-        (VERIF / '.readelf-tmp').rmdir()
-    except OSError:
-        pass
